@@ -46,6 +46,8 @@ fn main() {
                         "seq0" => gens::gen_seq(seed, if thorough { 8_000 } else { 1_500 }, if thorough { 100 } else { 40 }, true, false, false, &sink),
                         "seqp" => gens::gen_seq(seed ^ 0x7070, if thorough { 8_000 } else { 1_500 }, if thorough { 100 } else { 40 }, true, false, true, &sink),
                         "seqr" => gens::gen_seq(seed, if thorough { 8_000 } else { 1_500 }, if thorough { 100 } else { 40 }, true, true, true, &sink),
+                        // rebuilds at random points, every order at the level's own price (C15: the value counter is judged)
+                        "seqrb" => gens::gen_seq(seed ^ 0x7262, if thorough { 4_000 } else { 700 }, if thorough { 100 } else { 40 }, true, true, false, &sink),
                         _ => {
                             eprintln!("unknown engine {engine}");
                             std::process::exit(2);
